@@ -180,9 +180,10 @@ def run(r):
         r.sample({"mis-marked value": c["show"][:200], "validator": c["msg"]})
 
     # ---- search / monitor
-    n = 30000 if quick else 600000
+    n = 24000 if quick else 600000
     lines, skipped = search(r, n, NCPU if quick else NCPU * 4)
-    clines, cskipped = _drive("corpus", 0, 0, r.seed)
+    rc, out, err = run_bin("c05", ["corpus", 0, 0], seed=r.seed, timeout=900)
+    clines, cskipped = json_lines(out), ([] if rc == 0 else [("corpus", "corpus run ended with code %s %s" % (rc, err[-200:]))])
     tot, prim, errk = sum_stats(lines)
     ctot, _, _ = sum_stats(clines)
     by_key = report_violations(r, lines, "generated programs")
